@@ -5,7 +5,7 @@ import vlib
 SUB, JUDGE = "roundtrip", "OFCodecTrace"
 # family -> (quick stride, thorough stride, expected minimum at stride 1)
 FAMS = {"VLAN": (61, 1, 65536), "ETH": (1, 1, 40), "IP4": (67, 1, 66000), "IP6": (89, 7, 1500), "FRAG": (13, 1, 16384), "TCP": (1, 1, 1024),
-        "L4": (1, 1, 20), "IGMP": (1, 1, 80)}
+        "L4": (1, 1, 20), "IGMP": (1, 1, 80), "EXT": (1, 1, 100)}
 
 
 def run(ctx):
